@@ -13,6 +13,7 @@ func checkC09(r *Run) {
 	ruleA1(r, p)
 	ruleA2(r, p)
 	ruleA18(r, p)
+	ruleFloatWidth(r, p) // floats: head byte, width and the three non-finite bit patterns
 	ruleA6(r, p, []string{cborRel})
 	if r.Tier == "thorough" {
 		if p32 := r.Use("B32"); p32 != nil {
